@@ -1,5 +1,6 @@
 #!/bin/bash
 # usage: refac_eval.sh <diff-file> [props]  — applies a behaviour-preserving refactoring to a scratch copy and runs checks (self-test: any alarm is a false alarm)
+# The checks of all listed properties run in one process over one loaded program (vcheck -p a,b,c: self-test mode).
 set -u
 export GOFLAGS=-mod=mod GOPROXY=off GOSUMDB=off GOTOOLCHAIN=local
 diff=$1; props=${2:-C01,C02,C03,C04,C05,C06,C07,C08,C09,C10,C11,C12,C13,C14,C15,C16,C17,C18,C19,C20}
@@ -10,19 +11,11 @@ rsync -a --exclude .git /repo/ "$D/"
 (cd "$D" && git init -q . && git apply "$diff") || { echo "PATCH-FAILS $diff"; exit 3; }
 (cd "$D" && go build ./... ) || { echo "DOES-NOT-BUILD $diff"; exit 3; }
 mkdir -p "$D/.verif"; cp "$V/known_findings.txt" "$D/.verif/"; cp -r "$V/testdata" "$D/.verif/"
-pids=()
-for p in ${props//,/ }; do
-  ( "${VCHECK:-$V/bin/vcheck}" -p $p -repo "$D" -verif "$D/.verif" > "$D/.out.$p" 2>&1; echo $? > "$D/.rc.$p" ) &
-  pids+=($!)
-  # at most 6 in parallel (memory)
-  if [ ${#pids[@]} -ge 6 ]; then wait ${pids[0]}; pids=("${pids[@]:1}"); fi
-done
-wait
-for p in ${props//,/ }; do
-  r=$(cat "$D/.rc.$p")
-  if [ "$r" != 0 ]; then
-    echo "ALARM $p exit=$r on $(basename $(dirname $diff))/$(basename $diff)"
-    grep -E "^  (VIOLATED|UNDECIDED)|^INFRA" "$D/.out.$p" | sed "s#$D/##g" | cut -c1-330 | head -6
-  fi
-done
+case "$props" in *,*) ;; *) props="$props," ;; esac
+"${VCHECK:-$V/bin/vcheck}" -p "${props%,}"$( [ "${props%,}" = "${props}" ] || echo , ) -repo "$D" -verif "$D/.verif" > "$D/.out" 2>&1
+awk -v name="$(basename $(dirname $diff))/$(basename $diff)" -v D="$D/" '
+  /^  (VIOLATED|UNDECIDED)|^INFRA/ { if (n < 6) { gsub(D, ""); buf[n++] = substr($0, 1, 330) } next }
+  /^PROP / { split($3, a, "="); if (a[2] != "0") { print "ALARM " $2 " exit=" a[2] " on " name; for (i = 0; i < n; i++) print buf[i] } n = 0; seen++ }
+  END { if (seen == 0) print "ALARM ? no property result on " name }
+' "$D/.out"
 echo "done $(basename $(dirname $diff))/$(basename $diff)"
